@@ -4,8 +4,9 @@ Router model, part 6: operation histories (property C02).
 `Op.run` executes one operation of the history on the router model, `Op.live` is its effect on the
 list of live rules (the specification), `Op.Valid` says that live ids stay unique (an inserted id is
 not live at the moment of its insertion; ids inside one change-set are consistent).
-`clone-then-mutate` needs no operation: states are values.  `cache n` only compiles regexes
-(property C12), it is the identity on the specification-level state.
+`clone-then-mutate` needs no operation: states are values.  `cache n` runs `Router::cache`
+(`RouterG.cache`): on the specification-level tower it changes nothing, on the tower over the real
+tree model it sets compiled flags (property C12); it never changes the live rules.
 -/
 import RioModel.Model.RouterLayers
 
@@ -39,7 +40,7 @@ def Op.runG (O : MOps) : Op → RouterG O → RouterG O
   | .remove id, S => (RouterG.remove O id S).1
   | .batchRemove ids, S => RouterG.batchRemove O ids S
   | .changeSet a u d, S => RouterG.applyChangeSet O a u d S
-  | .cache _, S => S
+  | .cache n, S => RouterG.cache O n S
 
 def runOpsG (O : MOps) (h : List Op) (S : RouterG O) : RouterG O := h.foldl (fun S op => op.runG O S) S
 
